@@ -123,7 +123,7 @@ func vFallbackGen(r *vRand, tier string, idx int) (cfg []int64, ops [][]int64) {
 	cfg = []int64{n}
 	cnt := 30 + r.Intn(60)
 	ver := int64(0)
-	// even cases avoid the two known findings (two servers, all watches up front), so that their
+	// even cases avoid the known finding (two servers) and the revert-loses-resource behaviour (all watches up front), so that their
 	// traces are compared with the model in full
 	calm := idx%2 == 0
 	if calm {
